@@ -40,7 +40,8 @@ MANIFEST = {
             'retained cell\'s coordinates (XORIG/YORIG moved by first index '
             'times cell size), level bounds (matching VGLVLS sub-range) and '
             'timestamps (SDATE/STIME/TSTEP and decoded times equal the '
-            'source sub-range).',
+            'source sub-range).'
+            ' Also: ROW and COL integers together (Python and numpy integers), grid origin held as an array.',
     'note': 'Trusted: z3, symdatetime, numpy indexing (real). Floats are '
             'reals; list/array windows not covered.',
 }
